@@ -127,6 +127,10 @@ func (s *rgState) opsString() string {
 }
 
 func rgPickTopics(rng *rand.Rand, emptyPct, allPct int) string {
+	if rng.Intn(8) == 0 {
+		// a prefix of the full list: the runner hands such lists over as slices of one backing array
+		return strings.Join(rgTopics[:1+rng.Intn(len(rgTopics))], ",")
+	}
 	r := rng.Intn(100)
 	if r < emptyPct {
 		return pick(rng, "-", "-", "=") // nil, or empty but not nil
@@ -852,7 +856,7 @@ func genC18(rng *rand.Rand, n int, thorough bool, emit func(string)) {
 		emit("FINITES " + genLongFinite(rng, thorough)) // (a ValidReplayer's slot report would be as long as its buffer)
 	}
 	for i := 0; i < n; i++ {
-		fin := thorough && rng.Intn(100) < 5
+		fin := (thorough && rng.Intn(100) < 5) || (!thorough && i < 120) // (quick: the first 120, with finalizers)
 		if rng.Intn(2) == 0 {
 			if fin {
 				emit("FINITEF " + genFiniteHistory(rng, false, 0, true))
